@@ -19,7 +19,7 @@ CASE_TIMEOUT = 30
 SHRINK_TESTS = 80
 MAX_REPORT = 4
 TRUSTED = ['model lean/TboxModel/C18/Model.lean hand-written from modules/coroutine/{scheduler.cpp,channel.hpp,mutex.hpp,semaphore.hpp,'
-           'broadcast.hpp,condition.hpp} AFTER patches/C18-01..03; tied by differential runs of scripted routines on the real scheduler '
+           'broadcast.hpp,condition.hpp} AFTER patches/C18-01..04; tied by differential runs of scripted routines on the real scheduler '
            '(real ucontext switches, real epoll loop; one op line per loop iteration)',
            'ucontext switching (makecontext/swapcontext) and Cabinet token validity (ids never reissued; C08) are trusted',
            'the harness runs without sanitizers (plain flavour): raw memory safety of the coroutine stacks is not observed']
@@ -174,11 +174,11 @@ def nontrivial(ops, model_lines):
 
 LEVEL_TEXT = ('Lean 4 theorems over a deterministic model of the coroutine scheduler and its five primitives: an inductive invariant over every '
               'reachable state (any scripts, any main-context resume/cancel/cleanup points) gives channel FIFO/exactly-once, mutual exclusion, '
-              'the semaphore bound, and no lost wake-up (a routine suspended in recv/lock/acquire implies the resource is unavailable; broadcast/'
+              'the semaphore bound, the cabinet bookkeeping, cleanup() terminating after one sweep with every routine dead, and no lost wake-up (a routine suspended in recv/lock/acquire implies the resource is unavailable; broadcast/'
               'condition/join waiters are registered for the next post); cancel makes every blocking call fail without suspending; tied to the real '
               'scheduler on every run by differential execution of scripted ucontext routines on the real event loop')
 LEVEL_NOTE = ('trusted: Lean kernel, hand-written model + differential tie (coverage bounded by the generator, measured), ucontext, Cabinet; '
-              'no sanitizer on the implementation side (plain flavour); create() during cleanup() excluded by assumption')
+              'no sanitizer on the implementation side (plain flavour; a valgrind memcheck sample runs in the thorough tier)')
 TECHNIQUE = 'Lean 4 invariant proof over all executions of a scheduler model + model/implementation correspondence check'
 DESIGN_REF = 'DESIGN.md §6 C18, §7 row 10'
 
